@@ -302,10 +302,27 @@ func (n *Net) Start(i int) error {
 				startErr = fmt.Errorf("panic while starting node %d: %v", i+1, r)
 			}
 		}()
-		sw := p2p.MakeSwitch(pc, i, "verif", "1.0", func(_ int, sw *p2p.Switch) *p2p.Switch {
-			sw.AddReactor("CONSENSUS", conR)
-			return sw
-		})
+		// p2p.MakeSwitch listens on a "free" port it picked a moment earlier and panics when another process took it in
+		// between (the test utility's race): try again before giving up
+		var sw *p2p.Switch
+		var lastPanic interface{}
+		for attempt := 0; attempt < 8 && sw == nil; attempt++ {
+			func() {
+				defer func() {
+					if r := recover(); r != nil {
+						lastPanic = r
+						time.Sleep(time.Duration(20+attempt*30) * time.Millisecond)
+					}
+				}()
+				sw = p2p.MakeSwitch(pc, i, "verif", "1.0", func(_ int, sw *p2p.Switch) *p2p.Switch {
+					sw.AddReactor("CONSENSUS", conR)
+					return sw
+				})
+			}()
+		}
+		if sw == nil {
+			panic(lastPanic)
+		}
 		sw.SetLogger(log.New())
 		if err := sw.Start(); err != nil {
 			startErr = fmt.Errorf("switch of node %d does not start: %v", i+1, err)
